@@ -61,6 +61,10 @@ pub struct DlCfg {
     pub upload: Option<(Vec<u8>, u8)>,
     /// payload of the first request when there is no upload phase
     pub req_payload: Vec<u8>,
+    /// requests on OTHER keys that the server handles between two block requests of this transfer
+    pub noise_between_blocks: usize,
+    /// requests on other keys handled while the first request of this transfer is still with the application
+    pub overlap_first_exchange: usize,
     /// do not send the two probing requests after the transfer (sessions: the next transfer is
     /// the probe, and extra requests would overwrite what the finished transfer left behind)
     pub skip_release_probes: bool,
@@ -68,7 +72,7 @@ pub struct DlCfg {
 
 impl DlCfg {
     pub fn base() -> DlCfg {
-        DlCfg { ep: 0, path: vec![], body: vec![], reply_opts: vec![], tkl: 0, strategy: Strategy::Follow, typ: 0, abandon_after: None, vary_tkl: false, code: 1, upload: None, req_payload: vec![], skip_release_probes: false }
+        DlCfg { ep: 0, path: vec![], body: vec![], reply_opts: vec![], tkl: 0, strategy: Strategy::Follow, typ: 0, abandon_after: None, vary_tkl: false, code: 1, upload: None, req_payload: vec![], noise_between_blocks: 0, overlap_first_exchange: 0, skip_release_probes: false }
     }
 }
 
@@ -123,10 +127,15 @@ pub fn download(server: &mut Server, cfg: &DlCfg, ids: &mut Ids) -> (Vec<Finding
     let overhead = reply_overhead(cfg.tkl, &cfg.reply_opts);
     let want_opts = sorted_opts(&cfg.reply_opts);
     let path: Vec<&str> = cfg.path.iter().map(|s| s.as_str()).collect();
-    let calls_before = server.app_calls;
+    // how often THIS transfer's requests reach the application (requests on other keys do not count)
+    let own_calls = std::rc::Rc::new(std::cell::Cell::new(0u64));
+    let own_calls_in_app = own_calls.clone();
     let body = cfg.body.clone();
     let reply_opts = cfg.reply_opts.clone();
-    let mut app = move |_r: &coap_lite::CoapRequest<CEp>| AppReply { code: 0x45, options: reply_opts.clone(), payload: body.clone() };
+    let mut app = move |_r: &coap_lite::CoapRequest<CEp>| {
+        own_calls_in_app.set(own_calls_in_app.get() + 1);
+        AppReply { code: 0x45, options: reply_opts.clone(), payload: body.clone() }
+    };
 
     let mut client_szx: Option<u8> = match &cfg.strategy {
         Strategy::Early(s) => Some(*s),
@@ -169,7 +178,23 @@ pub fn download(server: &mut Server, cfg: &DlCfg, ids: &mut Ids) -> (Vec<Finding
     req.mid = mid;
     req.token = tok;
     req.block2 = client_szx.map(|s| (0, false, s));
-    let ex = server.exchange(&req.bytes(), cfg.ep, &mut app);
+    let mut noise_id: u32 = (ids.mid as u32) << 12;
+    let mut noise = |server: &mut Server, n: usize, noise_id: &mut u32| {
+        for _ in 0..n {
+            *noise_id += 1;
+            let mut q = ReqSpec::new(1, &["noise", &format!("{}", *noise_id % 4099)]);
+            q.mid = *noise_id as u16;
+            let mut small = |_r: &coap_lite::CoapRequest<CEp>| AppReply::content(b"n".to_vec());
+            let _ = server.exchange(&q.bytes(), 50_000 + *noise_id % 13, &mut small);
+        }
+    };
+    let ex = if cfg.overlap_first_exchange > 0 {
+        let k = cfg.overlap_first_exchange;
+        let mut between = |srv: &mut Server| noise(srv, k, &mut noise_id);
+        server.exchange_overlapped(&req.bytes(), cfg.ep, &mut app, &mut between)
+    } else {
+        server.exchange(&req.bytes(), cfg.ep, &mut app)
+    };
     if let Step::Panic(p) = &ex.intercept_request {
         bail!(Scope::Transfer, &p.sig(), "{}", p.text());
     }
@@ -331,6 +356,16 @@ pub fn download(server: &mut Server, cfg: &DlCfg, ids: &mut Ids) -> (Vec<Finding
                 r.mid = mid;
                 r.token = tok;
                 r.block2 = Some(((received.len() / nsize) as u32, false, next_szx));
+                if cfg.noise_between_blocks > 0 {
+                    let mut nid: u32 = 0x4000_0000 | (r.mid as u32) << 12;
+                    for _ in 0..cfg.noise_between_blocks {
+                        nid += 1;
+                        let mut q = ReqSpec::new(1, &["noise", &format!("{}", nid % 4099)]);
+                        q.mid = nid as u16;
+                        let mut small = |_r: &coap_lite::CoapRequest<CEp>| AppReply::content(b"n".to_vec());
+                        let _ = server.exchange(&q.bytes(), 60_000 + nid % 13, &mut small);
+                    }
+                }
                 let e2 = server.exchange(&r.bytes(), cfg.ep, &mut app);
                 if let Step::Panic(p) = &e2.intercept_request {
                     bail!(Scope::Transfer, &p.sig(), "{}", p.text());
@@ -350,8 +385,8 @@ pub fn download(server: &mut Server, cfg: &DlCfg, ids: &mut Ids) -> (Vec<Finding
     if received != cfg.body {
         bail!(Scope::Transfer, "reassembled-body-differs", "got {} bytes, body {}", received.len(), cfg.body.len());
     }
-    if server.app_calls - calls_before != 1 {
-        bail!(Scope::Transfer, "application-consulted-more-than-once", "{} application calls for one transfer", server.app_calls - calls_before);
+    if own_calls.get() != 1 {
+        bail!(Scope::Transfer, "application-consulted-more-than-once", "{} application calls for one transfer", own_calls.get());
     }
     if cfg.skip_release_probes {
         return (out, st);
@@ -396,6 +431,9 @@ pub struct UlCfg {
     pub code: u8,
     /// the extra options ride only on blocks from this index on (0 = every block)
     pub extra_from: usize,
+    /// before the upload, the client first tried the whole body in one request (no Block1) carrying
+    /// this many bytes of Uri-Query; the 4.13 it got made it switch to block-wise
+    pub oversized_first_try: Option<usize>,
 }
 
 #[derive(Debug, Default)]
@@ -453,8 +491,14 @@ pub fn upload(server: &mut Server, cfg: &UlCfg, ids: &mut Ids) -> (Vec<Finding>,
             None => return Err(f(Scope::Transfer, "ack-block1-unparseable", hex(&raw[0]))),
         };
         let size_r = szx_size(sr);
-        if nr as usize * size_r != i * s {
-            return Err(f(Scope::Transfer, "ack-block-number-vs-offset", format!("block {} of size {} acknowledged as block {} of size {}", i, s, nr, size_r)));
+        // "echoing its number and a size no larger than the client's": with a budget that admits the
+        // client's size (C09's domain) the number comes back as sent; elsewhere (C10's uploads under
+        // tight budgets) a re-expression of the same offset in a smaller size is tolerated
+        let admitted = r.overhead() + 32 + s <= budget;
+        let echoed = nr as usize == i && sr <= szx;
+        let same_offset = nr as usize * size_r == i * s;
+        if !(echoed || (!admitted && same_offset)) {
+            return Err(f(Scope::Transfer, "ack-does-not-echo-block-number", format!("block {} of size {} acknowledged as block {} of size {} (budget {}, request overhead {})", i, s, nr, size_r, budget, r.overhead())));
         }
         if sr > szx {
             out.push(f(Scope::Budget, "ack-size-larger-than-client", format!("client size {} acknowledged with size {}", s, size_r)));
@@ -484,6 +528,25 @@ pub fn upload(server: &mut Server, cfg: &UlCfg, ids: &mut Ids) -> (Vec<Finding>,
         Ok(())
     };
 
+    // the client's first attempt: everything in one request, refused with 4.13
+    if let Some(qlen) = cfg.oversized_first_try {
+        let mut q = ReqSpec::new(cfg.code, &path);
+        let (mid, tok) = ids.next(8);
+        q.mid = mid;
+        q.token = tok;
+        q.extra = cfg.extra.clone();
+        if qlen > 0 {
+            q.extra.push((15, vec![b'q'; qlen]));
+        }
+        q.payload = vec![0x33; budget + 50];
+        let mut refuse_app = |_r: &coap_lite::CoapRequest<CEp>| AppReply { code: 0x44, options: vec![], payload: vec![] };
+        let ex = server.exchange(&q.bytes(), cfg.ep, &mut refuse_app);
+        if let Step::Panic(p) = &ex.intercept_request {
+            bail!(Scope::Transfer, &p.sig(), "{}", p.text());
+        }
+        // (whether this is 4.13 or a 5.00 because the query alone exceeds the budget is judged elsewhere)
+        st.abandoned_blocks += 0;
+    }
     // abandoned earlier upload
     if let Some((abody, aszx, ablocks)) = &cfg.abandoned {
         for i in 0..*ablocks {
@@ -700,7 +763,7 @@ pub fn run_sessions(rep: &mut Report, r: &mut Rng, n: u64, level: u32, scope: Sc
                 2 => Strategy::Early(r.below(7) as u8),
                 _ => Strategy::Reduce { early: None, after: r.urange(1, 2), new_szx: r.below(2) as u8 },
             };
-            let cfg = DlCfg { ep: 7, path: vec!["sess".into()], body: body_bytes(r.next_u64(), blen), reply_opts: opts.clone(), tkl, strategy, typ: 0, abandon_after: None, vary_tkl: r.chance(1, 3), code, upload, req_payload: if code != 1 && r.bool() { b"q".to_vec() } else { vec![] }, skip_release_probes: t + 1 < ntx && r.chance(2, 3) };
+            let cfg = DlCfg { ep: 7, path: vec!["sess".into()], body: body_bytes(r.next_u64(), blen), reply_opts: opts.clone(), tkl, strategy, typ: 0, abandon_after: None, vary_tkl: r.chance(1, 3), code, upload, req_payload: if code != 1 && r.bool() { b"q".to_vec() } else { vec![] }, noise_between_blocks: 0, overlap_first_exchange: 0, skip_release_probes: t + 1 < ntx && r.chance(2, 3) };
             story.push(format!("#{} {} upload {:?} reply {}B strategy {:?} vary_tkl {}", t, coap_lite::MessageClass::from(code), cfg.upload.as_ref().map(|u| (u.0.len(), szx_size(u.1))), blen, cfg.strategy, cfg.vary_tkl));
             let witness = format!("session on one handler and key, budget {} reply options {:?}: {}", m, opts.iter().map(|o| o.0).collect::<Vec<_>>(), story.join(" ; "));
             set_case_str(&witness);
@@ -800,6 +863,34 @@ pub fn interleaved_similar_paths(rep: &mut Report, r: &mut Rng, ids: &mut Ids) {
                 }
             }
         }
+    }
+}
+
+/// A transfer on a busy server: thousands of requests on other keys arrive between two block
+/// requests, and while the first request is still with the application.
+pub fn busy_server(rep: &mut Report, r: &mut Rng, ids: &mut Ids, scope: Scope, level: u32) {
+    let loads: &[(usize, usize)] = if level == 0 { &[(3, 3)] } else { &[(0, 70), (70, 0), (1100, 0), (0, 1100), (2500, 70), (5, 5)] };
+    for &(between_blocks, overlap) in loads {
+        rep.eval();
+        let szx = r.below(4) as u8;
+        let opts = gen_reply_opts(r);
+        let tkl = r.usize_below(9);
+        let overhead = reply_overhead(tkl, &opts);
+        let m = (overhead + 12 + 32 + szx_size(szx) + r.usize_below(200)).min(1280);
+        let len = szx_size(szx) * 3 + r.usize_below(40) + 1;
+        let cfg = DlCfg { ep: 77, path: vec!["busy".into()], body: body_bytes(r.next_u64(), len), reply_opts: opts, tkl, strategy: Strategy::Early(szx), typ: 0, noise_between_blocks: between_blocks, overlap_first_exchange: overlap, ..DlCfg::base() };
+        let witness = format!("busy server: budget {} body {}B client block size {}, {} requests on other keys between block requests, {} while the first request is with the application", m, len, szx_size(szx), between_blocks, overlap);
+        set_case_str(&witness);
+        let mut server = Server::new(m, LONG);
+        let (findings, st) = download(&mut server, &cfg, ids);
+        let findings: Vec<Finding> = findings.into_iter().map(|mut x| {
+            x.sig = format!("busy-server:{}", x.sig);
+            x
+        }).collect();
+        if !report_findings(rep, findings, scope, &witness) && st.fragmented {
+            rep.count("busy_server_transfers_held");
+        }
+        rep.distinct(mix(&[0xB5, between_blocks as u64, overlap as u64, szx as u64]));
     }
 }
 
@@ -919,6 +1010,10 @@ pub fn run_c08(ctx: &mut Ctx) {
         interleaved_similar_paths(rep, &mut r, &mut ids);
         rep.floor("interleaved_similar_path_pairs_held", 1);
     }
+    if shard <= 1 {
+        busy_server(rep, &mut r, &mut ids, Scope::Transfer, level);
+        rep.floor("busy_server_transfers_held", 1);
+    }
     rep.floor("session_transfers_with_blockwise_reply", 1);
     rep.floor("session_transfers_with_upload_phase", 1);
     rep.floor("restarts_fragmented", 1);
@@ -1020,7 +1115,7 @@ pub fn run_c09(ctx: &mut Ctx) {
                         2 => Some((body_bytes(998, 2 * s), szx, 1)),                 // shorter
                         _ => Some((body_bytes(997, 700), if szx > 0 { szx - 1 } else { 1 }, 1 + len % 5)), // other block size
                     };
-                    let cfg = UlCfg { ep: 3, path: vec!["up".into()], body, szx, dups: vec![1 + (len % 3) as u8, 1, 2], tkl: len % 9, abandoned, extra: vec![], code: 3, extra_from: 0 };
+                    let cfg = UlCfg { ep: 3, path: vec!["up".into()], body, szx, dups: vec![1 + (len % 3) as u8, 1, 2], tkl: len % 9, abandoned, extra: vec![], code: 3, extra_from: 0, oversized_first_try: None };
                     let mut probe = ReqSpec::new(3, &["up"]);
                     probe.block1 = Some((70, true, szx));
                     probe.token = vec![0; cfg.tkl];
@@ -1070,7 +1165,7 @@ pub fn run_c09(ctx: &mut Ctx) {
             vec![]
         };
         let path: Vec<String> = (0..r.urange(1, 3)).map(|i| format!("p{}", i)).collect();
-        let cfg = UlCfg { ep: r.below(3) as u32, path, body: new_body, szx, dups: (0..3).map(|_| r.urange(1, 3) as u8).collect(), tkl: r.usize_below(9), abandoned, extra, code: *r.pick(&[2u8, 3, 5, 6]), extra_from: 0 };
+        let cfg = UlCfg { ep: r.below(3) as u32, path, body: new_body, szx, dups: (0..3).map(|_| r.urange(1, 3) as u8).collect(), tkl: r.usize_below(9), abandoned, extra, code: *r.pick(&[2u8, 3, 5, 6]), extra_from: 0, oversized_first_try: if r.chance(1, 4) { Some(*r.pick(&[0usize, 20, 60, 116, 200])) } else { None } };
         let pathrefs: Vec<&str> = cfg.path.iter().map(|s| s.as_str()).collect();
         let mut probe = ReqSpec::new(cfg.code, &pathrefs);
         probe.block1 = Some((400, true, szx));
@@ -1273,7 +1368,7 @@ pub fn run_c10(ctx: &mut Ctx) {
         // property's configuration: clients never raise the size, so a shrinking server ends this
         // transfer early (the acknowledgement itself is what C10 judges)
         let extra_from = if r.bool() { 0 } else { r.urange(1, 3) };
-        let cfg = UlCfg { ep: 4, path, body: body_bytes(r.next_u64(), len), szx, dups: vec![1], tkl, abandoned: None, extra, code: 3, extra_from };
+        let cfg = UlCfg { ep: 4, path, body: body_bytes(r.next_u64(), len), szx, dups: vec![1], tkl, abandoned: None, extra, code: 3, extra_from, oversized_first_try: None };
         if extra_from > 0 && !cfg.extra.is_empty() {
             rep.count("uploads_whose_later_blocks_carry_more_options");
         }
@@ -1291,6 +1386,10 @@ pub fn run_c10(ctx: &mut Ctx) {
         rep.distinct(mix(&[0xB1, szx as u64, fits as u64, (m - overhead).min(1100) as u64 / 8]));
     }
     run_sessions(rep, &mut r, (budget / 2).max(if level == 0 { 2 } else { 40 }), level, Scope::Budget, &mut ids);
+    if shard <= 1 {
+        busy_server(rep, &mut r, &mut ids, Scope::Budget, level);
+        rep.floor("busy_server_transfers_held", 1);
+    }
     rep.floor("session_transfers_with_upload_phase", 1);
     rep.floor("edge_of_fragmentation_cases", 10);
     rep.floor("transfers_fragmented", 10);
